@@ -46,7 +46,7 @@ func (g *Graph) Dijkstra(src Vertex) (distTo map[interface{}]int, edgeTo map[int
 		// U <- Extract MIN from Q
 		u := heap.Pop(&queue).(*distQueueItem)
 		visited[u.v] = struct{}{}
-		verifPop(u.v, u.distance)
+		verifPop(u.v, int(u.distance))
 
 		// for each unvisited neighbour V of U
 		for vhash, weight := range g.adjacencyOut[u.v] {
